@@ -495,6 +495,40 @@ class TableFilter(dsw.DefaultBioFilter):
         return bool(self.table[x])
 
 
+class TableFilterLocal(dsw.LocalBioFilter):
+    """a user-defined filter made by SUBCLASSING the built-in LocalBioFilter (no built-in rule switched on) and overriding
+    valid: its verdicts are the table's, not those of a LocalBioFilter"""
+
+    def __init__(self, k, table):
+        super().__init__(observed_length=k)
+        self.k, self.table = k, table
+
+    def valid(self, dna_string, only_last=True):
+        x = 0
+        for c in dna_string:
+            x = 4 * x + NUC.index(c)
+        return bool(self.table[x])
+
+
+class TableFilterDuck(object):
+    """a filter that is no subclass of anything: only the documented method"""
+
+    def __init__(self, k, table):
+        self.k, self.table = k, table
+
+    def valid(self, dna_string):
+        x = 0
+        for c in dna_string:
+            x = 4 * x + NUC.index(c)
+        return bool(self.table[x])
+
+
+def table_filter(k, table):
+    """the same table behind one of three kinds of user-defined filter (chosen by the table itself, so that a payload determines it)"""
+    kind = (sum(table) + len(table) + sum(i for i, x in enumerate(table) if x)) % 3
+    return [TableFilter, TableFilterLocal, TableFilterDuck][kind](k, table)
+
+
 def kmer(v, k):
     return "".join(NUC[(v // 4 ** (k - 1 - i)) % 4] for i in range(k))
 
